@@ -165,6 +165,14 @@ namespace bloch::compiler {
                    (t.value == ValueType::Boolean || t.value == ValueType::Bit);
         }
 
+        // A class reference or an array is never acceptable where a primitive is declared. Their
+        // primitive tag is 'Unknown', which the primitive comparison treats as "matches anything".
+        bool nonPrimitiveIntoPrimitive(const SemanticAnalyser::TypeInfo& expected,
+                                       const SemanticAnalyser::TypeInfo& actual) {
+            return expected.className.empty() && expected.value != ValueType::Unknown &&
+                   !actual.className.empty() && !actual.isTypeParam;
+        }
+
         bool isBitArrayType(const SemanticAnalyser::TypeInfo& t) {
             return isArrayType(t) && !t.typeArgs.empty() && t.typeArgs[0].className.empty() &&
                    t.typeArgs[0].value == ValueType::Bit;
@@ -449,6 +457,8 @@ namespace bloch::compiler {
         }
 
         if (expected.className.empty()) {
+            if (nonPrimitiveIntoPrimitive(expected, actual))
+                return false;
             if (expected.value == ValueType::Unknown || actual.value == ValueType::Unknown)
                 return true;
             if (actual.className.empty())
@@ -838,6 +848,12 @@ namespace bloch::compiler {
 
         if (auto primType = targetInfo.value; primType != ValueType::Unknown) {
             ValueType initT = initInfo.value;
+            if (nonPrimitiveIntoPrimitive(targetInfo, initInfo)) {
+                throw BlochError(ErrorCategory::Semantic, line, column,
+                                 "initialiser for '" + name + "' expected '" +
+                                     typeToString(primType) + "' but got '" +
+                                     typeLabel(initInfo) + "'");
+            }
             if (!matchesPrimitive(primType, initT)) {
                 if (primType == ValueType::Bit) {
                     if (auto lit = dynamic_cast<LiteralExpression*>(initializer)) {
@@ -869,7 +885,7 @@ namespace bloch::compiler {
                                      "initialiser for '" + name + "' cannot be null");
                 }
             } else if (!isAssignableType(targetInfo, initInfo) &&
-                       initInfo.value != ValueType::Unknown) {
+                       (initInfo.value != ValueType::Unknown || !initInfo.className.empty())) {
                 throw BlochError(
                     ErrorCategory::Semantic, line, column,
                     "initialiser for '" + name + "' expected '" + typeLabel(targetInfo) + "'");
@@ -1698,7 +1714,8 @@ namespace bloch::compiler {
                         throw BlochError(ErrorCategory::Semantic, node.line, node.column,
                                          "return type mismatch");
                     }
-                } else if (!matchesPrimitive(m_currentReturn.value, actual.value)) {
+                } else if (nonPrimitiveIntoPrimitive(m_currentReturn, actual) ||
+                           !matchesPrimitive(m_currentReturn.value, actual.value)) {
                     throw BlochError(ErrorCategory::Semantic, node.line, node.column,
                                      "return type mismatch");
                 }
@@ -1875,7 +1892,7 @@ namespace bloch::compiler {
                         throw BlochError(ErrorCategory::Semantic, node.line, node.column,
                                          "cannot assign null to '" + node.name + "'");
                     }
-                } else if (valType.value != ValueType::Unknown &&
+                } else if ((valType.value != ValueType::Unknown || !valType.className.empty()) &&
                            !isAssignableType(targetType, valType)) {
                     throw BlochError(ErrorCategory::Semantic, node.line, node.column,
                                      "assignment to '" + node.name + "' expects '" +
@@ -1902,7 +1919,8 @@ namespace bloch::compiler {
                     }
                 }
                 if (!targetType.className.empty() && valType.value != ValueType::Null &&
-                    valType.value != ValueType::Unknown && !isAssignableType(targetType, valType)) {
+                    (valType.value != ValueType::Unknown || !valType.className.empty()) &&
+                    !isAssignableType(targetType, valType)) {
                     throw BlochError(ErrorCategory::Semantic, node.line, node.column,
                                      "assignment to field '" + node.name + "' expects '" +
                                          typeLabel(targetType) + "'");
@@ -2221,9 +2239,10 @@ namespace bloch::compiler {
                                          "argument #" + std::to_string(i + 1) + " to '" + name +
                                              "' expected '" + typeLabel(expected) + "'");
                     }
-                } else if (expected.value != ValueType::Unknown &&
-                           actual.value != ValueType::Unknown &&
-                           !matchesPrimitive(expected.value, actual.value)) {
+                } else if (nonPrimitiveIntoPrimitive(expected, actual) ||
+                           (expected.value != ValueType::Unknown &&
+                            actual.value != ValueType::Unknown &&
+                            !matchesPrimitive(expected.value, actual.value))) {
                     throw BlochError(ErrorCategory::Semantic, arg->line, arg->column,
                                      "argument #" + std::to_string(i + 1) + " to '" + name +
                                          "' expected '" + typeToString(expected.value) + "'");
@@ -2565,7 +2584,7 @@ namespace bloch::compiler {
                         throw BlochError(ErrorCategory::Semantic, node.line, node.column,
                                          "cannot assign null to '" + node.name + "'");
                     }
-                } else if (valType.value != ValueType::Unknown &&
+                } else if ((valType.value != ValueType::Unknown || !valType.className.empty()) &&
                            !isAssignableType(targetType, valType)) {
                     throw BlochError(ErrorCategory::Semantic, node.line, node.column,
                                      "assignment to '" + node.name + "' expects '" +
@@ -2592,7 +2611,8 @@ namespace bloch::compiler {
                     }
                 }
                 if (!targetType.className.empty() && valType.value != ValueType::Null &&
-                    valType.value != ValueType::Unknown && !isAssignableType(targetType, valType)) {
+                    (valType.value != ValueType::Unknown || !valType.className.empty()) &&
+                    !isAssignableType(targetType, valType)) {
                     throw BlochError(ErrorCategory::Semantic, node.line, node.column,
                                      "assignment to field '" + node.name + "' expects '" +
                                          typeLabel(targetType) + "'");
@@ -2673,7 +2693,8 @@ namespace bloch::compiler {
                 }
             }
             if (!targetType.className.empty() && valType.value != ValueType::Null &&
-                valType.value != ValueType::Unknown && !isAssignableType(targetType, valType)) {
+                (valType.value != ValueType::Unknown || !valType.className.empty()) &&
+                !isAssignableType(targetType, valType)) {
                 throw BlochError(ErrorCategory::Semantic, node.line, node.column,
                                  "assignment to field '" + node.member + "' expects '" +
                                      typeLabel(targetType) + "'");
